@@ -282,6 +282,10 @@ class Terms:
             inl = inline_helper(self.prog, callee, args)
             if inl is not None:
                 return inl
+            if "{closure#" in callee.rsplit("::", 1)[-1] and callee in self.prog.bodies and len(args) == 2:
+                red = beta_reduce(self.prog, callee, args)
+                if red is not None:
+                    return red
         return ("call", callee, args, bb)
 
     # -------------------------------------------------------------- helpers
@@ -290,6 +294,50 @@ class Terms:
         if t["k"] != "switch":
             return None
         return self.operand(t["d"])
+
+
+def beta_reduce(prog, callee, args):
+    """A local closure called directly (`let f = |x| g(cap, x); ... f(a)`): the closure's single straight-line result with
+    the captures and the argument substituted.  None when the closure value is not the literal closure of this body, has
+    several returns / branches, or mutates captured state."""
+    env = args[0]
+    while env[0] in ("ref", "deref"):
+        env = env[1]
+    if not (env[0] == "aggr" and env[1] == "closure:" + callee):
+        return None
+    tup = args[1]
+    if not (tup[0] == "aggr" and tup[1] == "tuple"):
+        return None
+    cb = prog.bodies[callee]
+    if len(cb.reachable()) > 12 or any(cb.blocks[b_]["t"]["k"] == "switch" for b_ in cb.reachable()):
+        return None
+    from .guards import closure_ret, subst_upvars
+    try:
+        rets = closure_ret(prog, cb)
+    except Exception:
+        return None
+    if len(rets) != 1:
+        return None
+    r = subst_upvars(rets[0], env[2])
+
+    def sub(x):
+        if not isinstance(x, tuple) or not x or not isinstance(x[0], str):
+            return x
+        if x[0] == "carg":
+            return tup[2][x[1]] if x[1] < len(tup[2]) else x
+        out = [x[0]]
+        for y in x[1:]:
+            if isinstance(y, tuple) and y and isinstance(y[0], str):
+                out.append(sub(y))
+            elif isinstance(y, tuple):
+                out.append(tuple(sub(z) if isinstance(z, tuple) else z for z in y))
+            else:
+                out.append(y)
+        return tuple(out)
+    r = sub(r)
+    if any(z[0] in ("cenv", "mut", "var", "loopval") for z in walk(rets[0])):
+        return None
+    return r
 
 
 def strip(t):
